@@ -92,3 +92,28 @@ impl std::io::Write for PlainWriter {
         Ok(())
     }
 }
+
+
+/// `Package::open("/proc/self/fd/<read end of a pipe>")` with `bytes` fed by another thread; None
+/// when the platform has no /proc/self/fd or no pipe can be made.
+pub fn open_through_pipe(bytes: &[u8]) -> Option<Result<rpm::Package, rpm::Error>> {
+    use std::io::Write;
+    use std::os::fd::FromRawFd;
+    if !std::path::Path::new("/proc/self/fd").exists() {
+        return None;
+    }
+    let mut fds = [0i32; 2];
+    if unsafe { libc::pipe(fds.as_mut_ptr()) } != 0 {
+        return None;
+    }
+    let rd = unsafe { std::fs::File::from_raw_fd(fds[0]) };
+    let mut wr = unsafe { std::fs::File::from_raw_fd(fds[1]) };
+    let data = bytes.to_vec();
+    let feeder = std::thread::spawn(move || {
+        let _ = wr.write_all(&data);
+    });
+    let r = rpm::Package::open(format!("/proc/self/fd/{}", fds[0]));
+    drop(rd);
+    let _ = feeder.join();
+    Some(r)
+}
